@@ -72,3 +72,41 @@ Proof.
     + destruct gaps as [|g1 gaps']; [discriminate|]. cbn [combine map concat fst snd last].
       rewrite E. rewrite <- !app_assoc. reflexivity.
 Qed.
+
+(** * Which tokens may contain a line feed, and the line the lexer reports after each token *)
+Definition ptok_in (src : str) (pt : ptoken) : Prop :=
+  exists a b, src = a ++ tspell (pt_tok pt) ++ b /\ tstart (pt_tok pt) = byte_len a /\
+              pt_line pt = 1 + count_nl (a ++ tspell (pt_tok pt)).
+
+Lemma pstream_lines pre s pts : pstream pre s pts -> Forall (ptok_in (pre ++ s)) pts.
+Proof.
+  induction 1 as [pre g Hg|pre g pt rest_ pts Hg Hne Hwf Hk Hl Hs IH]; constructor.
+  - exists (pre ++ g), rest_. repeat split.
+    + rewrite <- !app_assoc. reflexivity.
+    + apply Hwf.
+    + rewrite Hl. rewrite <- pos_at_line. rewrite <- !app_assoc. reflexivity.
+  - eapply Forall_impl; [|exact IH]. intros pt' (a & b & E & W & L). exists a, b. repeat split; auto.
+    rewrite <- E. rewrite <- !app_assoc. reflexivity.
+Qed.
+
+Lemma pstream_kinds pre s pts : pstream pre s pts -> Forall (fun pt => nlk (pt_tok pt)) pts.
+Proof. induction 1; constructor; auto. Qed.
+
+(** every line feed of the source lies inside a token, and a token that contains one is a line-break
+    token, a string literal, a comment or an unterminated-literal error token *)
+Theorem lex_newline_kinds prof src pts :
+  byte_len src < u32_limit -> lex prof src = Ok pts ->
+  Forall (fun pt => no_nl (tspell (pt_tok pt)) = true \/ nl_kind (tid (pt_tok pt))) pts.
+Proof.
+  intros Hb Hl. destruct (lex_pstream prof src Hb) as (pts' & Hl' & Hs). rewrite Hl in Hl'. injection Hl' as <-.
+  apply (pstream_kinds _ _ _ Hs).
+Qed.
+
+(** the line the lexer reports after a token ([current_line()], which the parser uses for errors at the
+    end of the input) is the true line of the token's last byte *)
+Theorem lex_post_lines prof src pts :
+  byte_len src < u32_limit -> lex prof src = Ok pts -> Forall (ptok_in src) pts.
+Proof.
+  intros Hb Hl. destruct (lex_pstream prof src Hb) as (pts' & Hl' & Hs). rewrite Hl in Hl'. injection Hl' as <-.
+  apply (pstream_lines [] src pts Hs).
+Qed.
